@@ -180,7 +180,9 @@ CLAIMS = {
                  "u128, saturating at u64::MAX (true since the D67 fix; the flag that the float rungs go through scale_size is read "
                  "from the source on every run). Exponent forms and longer fractions take the f64 route (model in ℚ, within one byte). "
                  "The FORMAT_SIZE/fsize specifier grammar is modelled in ℚ (exact on dyadic values, one unit in the last place otherwise) "
-                 "and decided by in-process + CLI correspondence; monotonicity and round-trip within the displayed precision by oracle."),
+                 "and decided by in-process + CLI correspondence; autoScale_spec: without a fixed unit the chosen unit is the number of times the size can be "
+                 "divided by the base (1000 with d, else 1024) while still at least the base — the largest unit not exceeding the size — and the value "
+                 "shown is below the base; rounding, monotonicity and round-trip within the displayed precision by oracle."),
         "ref": "DESIGN.md §4 C14",
     },
     "C18": {
